@@ -1087,6 +1087,31 @@ Qed.
 
 End Cmd.
 
+(* validation has no memory: in any sequence of validations the answer for a tuple is the answer of
+   the single call, whatever was validated before or after it; a request's verdict does not depend
+   on the position of the invalid tuple *)
+Theorem validate_seq_stateless e m cds limit (before after : list rtuple) (w : rtuple) :
+  nth (length before) (validate_seq e m cds limit (before ++ w :: after)) false =
+  valid_for_write e m cds limit w /\
+  nth (length before) (validate_ctx_seq e m cds (before ++ w :: after)) false =
+  valid_ctx_tuple e m cds w.
+Proof.
+  unfold validate_seq, validate_ctx_seq. rewrite !map_app. cbn [map].
+  rewrite !app_nth2 by (rewrite map_length; apply Nat.le_refl).
+  rewrite !map_length, Nat.sub_diag. split; reflexivity.
+Qed.
+
+Theorem request_verdict_position_free e m cds limit maxw od om s deletes (before after : list rtuple) w :
+  valid_for_write e m cds limit w = false ->
+  w_result (write_cmd e m cds limit maxw od om s deletes (before ++ w :: after)) = WValidation /\
+  w_store (write_cmd e m cds limit maxw od om s deletes (before ++ w :: after)) = s.
+Proof.
+  intro H. destruct (invalid_tuple_rejects_request e m cds limit maxw od om s deletes (before ++ w :: after) w) as (H1 & H2 & _).
+  - apply in_or_app. right. left. reflexivity.
+  - exact H.
+  - split; assumption.
+Qed.
+
 (* ------------------------------------------------------------------------------------------ *)
 (* H. witnesses (closed by computation)                                                        *)
 
